@@ -241,8 +241,30 @@ void WaitCase(Ctx& ctx, int wk, int form, int shared_mode) {
   }
   bool use_end = ctx.rng.Coin();
   u32 wjit = ctx.rng.Below(4);
-  ctx.Note("%s %s n=%d shared_mode=%d%s deadline=%uns producers(sleep ns)=[", kWaitName[wk], kFormName[form], n,
-           shared_mode, focus ? " focus" : "", dur_ns);
+  // other consumers of the shared inputs: a callback registered before the wait, and (all-shared, n >= 2) a second
+  // thread waiting on the same futures in the opposite order; the wait must neither disturb them nor be disturbed
+  struct PreSub {
+    bool on = false;
+    int calls = 0;
+    int state = -9, code = 0;
+    bool fresh = true;
+  };
+  std::vector<PreSub> pre(static_cast<std::size_t>(n));
+  int npre = 0;
+  for (int i = 0; i < n; ++i) {
+    pre[static_cast<std::size_t>(i)].on = in[static_cast<std::size_t>(i)].shared && ctx.rng.Below(3) == 0;
+    npre += pre[static_cast<std::size_t>(i)].on;
+  }
+  bool second_waiter = shared_mode == 1 && n >= 2 && ctx.rng.Below(4) == 0;
+  yaclib::SharedFuture<Tracked, MyError> w2a, w2b;
+  bool w2_ok = true;
+  u32 w2jit = ctx.rng.Below(4);
+  if (second_waiter) {
+    w2a = ch[1].sf;
+    w2b = ch[0].sf;
+  }
+  ctx.Note("%s %s n=%d shared_mode=%d%s%s%s deadline=%uns producers(sleep ns)=[", kWaitName[wk], kFormName[form], n,
+           shared_mode, focus ? " focus" : "", npre != 0 ? " pre-subscribed" : "", second_waiter ? " second-waiter" : "", dur_ns);
   for (auto& s : in) {
     ctx.Note("%u%s ", s.sleep_ns, s.shared ? "S" : "U");
   }
@@ -260,8 +282,32 @@ void WaitCase(Ctx& ctx, int wk, int form, int shared_mode) {
         Fulfil(ch[static_cast<std::size_t>(i)], in[static_cast<std::size_t>(i)]);
       });
     }
+    if (second_waiter) {
+      ts.emplace_back([&] {
+        Jitter(w2jit);
+        yaclib::Wait(w2a, w2b);
+        w2_ok = w2a.Ready() && w2b.Ready();
+        w2a = {};
+        w2b = {};
+      });
+    }
     ts.emplace_back([&] {
       Jitter(wjit);
+      for (int i = 0; i < n; ++i) {
+        auto& ps = pre[static_cast<std::size_t>(i)];
+        if (ps.on) {
+          ch[static_cast<std::size_t>(i)].sf.SubscribeInline([&ps](const Result<Tracked, MyError>& r) {
+            ps.state = static_cast<int>(r.State());
+            if (ps.state == 0) {
+              ps.code = r.Value().v;
+              ps.fresh = r.Value().Fresh();
+            } else if (ps.state == 2) {
+              ps.code = r.Error().code;
+            }
+            ++ps.calls;
+          });
+        }
+      }
       auto dur = std::chrono::nanoseconds{dur_ns};
       auto t0 = yaclib_std::chrono::steady_clock::now();
       deadline_ns = std::chrono::duration_cast<std::chrono::nanoseconds>((t0 + dur).time_since_epoch()).count();
@@ -436,6 +482,25 @@ void WaitCase(Ctx& ctx, int wk, int form, int shared_mode) {
                 s.code);
     }
   }
+  for (int i = 0; i < n; ++i) {
+    auto& ps = pre[static_cast<std::size_t>(i)];
+    auto& s = in[static_cast<std::size_t>(i)];
+    if (ps.on) {
+      ctx.Check(ps.calls == 1, "co-subscriber-exactly-once", "C11,C06",
+                "a callback registered on shared future %d before the wait ran %d times", i, ps.calls);
+      if (ps.calls == 1 && s.kind != kExc) {
+        int ws = s.kind == kVal ? 0 : 2;
+        int wc = s.kind == kDropP ? -1 : s.code;
+        ctx.Check(ps.state == ws && ps.code == wc && ps.fresh, "co-subscriber-value", "C11,C06",
+                  "the callback registered on shared future %d before the wait saw state=%d code=%d, producer set state=%d code=%d",
+                  i, ps.state, ps.code, ws, wc);
+      }
+    }
+  }
+  if (npre != 0 || second_waiter) {
+    ctx.Class("shared-input-has-other-consumers");
+  }
+  ctx.Check(w2_ok, "returned-before-ready", "C11", "a second Wait on the same shared futures returned before both were Ready");
   ctx.Check(g_events.bad_set.load(kRlx) == 0, "touch-after-return", "C11",
             "%d completions called Set() on a waiter event that no longer exists", g_events.bad_set.load(kRlx));
 }
